@@ -156,6 +156,35 @@ def generated_axes(ctx, M, rng, q):
                 continue
             ctx.case({"ga": head, "x1": x1, "x2": x2, "ls": ls}, sample={"generated": head, "d": d, "n1": n1, "n2": n2})
             gwork.append((head, hs, hg, real))
+    # ---- MultitaskKernel: generated Kronecker layout (full matrix and diag path) vs the Lean Spec (`MT`) and the real kernel,
+    #      data kernels with a NON-constant diagonal, n != T
+    for rep in range(reps):
+        T, rank = rng.randint(2, 4), rng.randint(1, 2)
+        d = rng.randint(1, 3)
+        n1, n2 = rng.sample([x for x in range(2, 7) if x not in (T, d)], 2)
+        spec = M.rand_leaf(rng, rng.choice(["linear", "poly2", "rbf"]), d, False)
+        mk = GK.MultitaskKernel(M.build([spec], False), num_tasks=T, rank=rank).double()
+        mk.task_covar_module.initialize(covar_factor=torch.tensor([[rng.gauss(0, 1) for _ in range(rank)] for _ in range(T)],
+                                                                  dtype=torch.float64))
+        mk.task_covar_module.var = torch.tensor([M.logu(rng, 0.05, 2.0) for _ in range(T)], dtype=torch.float64)
+        x1, x2 = M.rand_x(rng, n1, d), M.rand_x(rng, n2, d)
+        tk = M.tokens(spec, mk.data_covar_module, 0, False)
+        KT = mk.task_covar_module.covar_matrix.to_dense().detach().tolist()
+        part = (f"{tk} {M.mat(mk.task_covar_module.covar_factor.detach().tolist())} "
+                f"{M.vec(mk.task_covar_module.var.detach().tolist())}")
+        X1t, X2t = torch.tensor(x1, dtype=torch.float64), torch.tensor(x2, dtype=torch.float64)
+        try:
+            with warnings.catch_warnings():
+                warnings.simplefilter("ignore")
+                real = mk(X1t, X2t).to_dense().detach().numpy()
+                real_d = mk(X1t, diag=True).detach().numpy()
+        except Exception as e:
+            ctx.broke("correspondence", "generated `mt` matrix vs the real kernel", f"real kernel raises {type(e).__name__}: {e}")
+            continue
+        ctx.case({"ga": "mt", "x1": x1, "x2": x2, "spec": spec, "T": T}, sample={"generated": "mt", "T": T, "n1": n1})
+        gwork.append(("mt", q.ask(f"MT 1 {part} {M.mat(x1)} {M.mat(x2)}"), q.ask(f"GA mt {tk} {M.mat(KT)} {M.mat(x1)} {M.mat(x2)}"), real))
+        gwork.append(("mtdiag", q.ask(f"MT 1 {part} {M.mat(x1)} {M.mat(x1)}"), q.ask(f"GA mtdiag {tk} {M.mat(KT)} {M.mat(x1)} {M.mat(x1)}"),
+                      real_d))
     ctx.count("generated_axes_comparisons", len(work) + len(gwork))
 
     def finish():
@@ -164,6 +193,8 @@ def generated_axes(ctx, M, rng, q):
                 ctx.broke("correspondence", f"driver rejected a generated-axes request ({head})", q.lines[hg][:200])
                 continue
             spec, gen = M.parse_bits(q[hs])[0], M.parse_bits(q[hg])[0]
+            if head == "mtdiag":
+                spec, gen = np.diagonal(spec), gen[0]
             sc = max(1.0, float(np.abs(spec).max()))
             if gen.shape != spec.shape or not np.allclose(gen, spec, rtol=1e-10, atol=1e-12 * sc):
                 ctx.broke("correspondence", f"generated `{head}` matrix (Gen/KernelAxes) vs the Lean entry formulas in the "
